@@ -23,6 +23,9 @@ type FixedCase struct {
 	Offset    int64    `json:"offset"`
 	Raw       HexBytes `json:"raw"`
 	Decode    bool     `json:"decode"`
+	// PreloadSame: the receiver's first field (timestamp / sequence / min delay / level) is
+	// preloaded with the very value the input encodes, the remaining fields with other values
+	PreloadSame bool `json:"preload_same"`
 }
 
 var subC17 = register("C17", "fixed", checkC17)
@@ -153,6 +156,21 @@ func checkC17Decode(r *run, c *FixedCase) (CaseInfo, error) {
 		ci.class("decode-trailing-bytes")
 	}
 	ci.Nontrivial = true
+	if c.PreloadSame && !short {
+		ci.class("decode-receiver-preloaded-with-the-same-first-field")
+		switch c.Codec {
+		case "audiolevel":
+			c = &FixedCase{Codec: c.Codec, Decode: true, Raw: c.Raw, A: uint64(raw[0] & 0x7F), Voice: raw[0]&0x80 == 0}
+		case "transportcc":
+			c = &FixedCase{Codec: c.Codec, Decode: true, Raw: c.Raw, A: uint64(raw[0])<<8 | uint64(raw[1])}
+		case "playoutdelay":
+			c = &FixedCase{Codec: c.Codec, Decode: true, Raw: c.Raw, A: uint64(raw[0])<<4 | uint64(raw[1])>>4, B: c.B}
+		case "abssendtime":
+			c = &FixedCase{Codec: c.Codec, Decode: true, Raw: c.Raw, A: uint64(raw[0])<<16 | uint64(raw[1])<<8 | uint64(raw[2])}
+		default:
+			c = &FixedCase{Codec: c.Codec, Decode: true, Raw: c.Raw, A: binary.BigEndian.Uint64(raw), HasOffset: c.HasOffset, Offset: c.Offset}
+		}
+	}
 	fail := func(got any, err error) error {
 		return failf("%s.Unmarshal(%s) into a receiver holding (%d,%d,%v,%v %d) = %+v, err %v", c.Codec, hx(c.Raw), c.A, c.B, c.Voice, c.HasOffset, c.Offset, got, err)
 	}
@@ -250,6 +268,11 @@ func genFixedCase(t *rapid.T) *FixedCase {
 	case "playoutdelay":
 		c.A = uint64(biased(t, "min", 0, 65535, 0, 1, 4094, 4095, 4096, 4097, 8191, 32768))
 		c.B = uint64(biased(t, "max", 0, 65535, 0, 1, 4094, 4095, 4096, 4097, 8191, 32768))
+		if rapid.IntRange(0, 2).Draw(t, "inrange") != 0 {
+			// interior of the valid domain: uniform 12-bit pairs
+			c.A = uint64(rapid.IntRange(0, 4095).Draw(t, "minin"))
+			c.B = uint64(rapid.IntRange(0, 4095).Draw(t, "maxin"))
+		}
 	case "abssendtime":
 		c.A = rapid.Uint64().Draw(t, "ts")
 		if genBool(t, "24bit") {
@@ -267,6 +290,7 @@ func genFixedCase(t *rapid.T) *FixedCase {
 	}
 	if genBool(t, "decode") {
 		c.Decode = true
+		c.PreloadSame = rapid.IntRange(0, 3).Draw(t, "preloadsame") == 0
 		size := fixedSize(c.Codec)
 		maxLen := size + 2
 		if c.Codec == "abscapturetime" {
@@ -321,6 +345,28 @@ func enumC17(r *run) bool {
 
 			return &FixedCase{Codec: "playoutdelay", A: v, B: fix}
 		}, false},
+		{"PlayoutDelay encode/decode: 2^17 pairs spread over the 2^24 in-range pairs (x127 and x8191 strides)", 1 << 17, func(i int) *FixedCase {
+			v := (i * 127) & 0xFFFFFF
+			if i&1 == 1 {
+				v = (i * 8191) & 0xFFFFFF
+			}
+			if i&2 == 2 {
+				return &FixedCase{Codec: "playoutdelay", Decode: true, Raw: []byte{byte(v >> 16), byte(v >> 8), byte(v), 0x11}, A: 1, B: 2}
+			}
+
+			return &FixedCase{Codec: "playoutdelay", A: uint64(v >> 12), B: uint64(v & 0xFFF)}
+		}, false},
+		{"AbsSendTime encode/decode: 2^17 values spread over the 24-bit range (x127 and x8191 strides)", 1 << 17, func(i int) *FixedCase {
+			v := uint64((i * 127) & 0xFFFFFF)
+			if i&1 == 1 {
+				v = uint64((i * 8191) & 0xFFFFFF)
+			}
+			if i&2 == 2 {
+				return &FixedCase{Codec: "abssendtime", Decode: true, Raw: []byte{byte(v >> 16), byte(v >> 8), byte(v)}, A: 0xABCDEF}
+			}
+
+			return &FixedCase{Codec: "abssendtime", A: v | uint64(i)<<24}
+		}, false},
 		{"PlayoutDelay out of range: min or max in 4096..65535 step 1 against 0/4095/65535", 2 * 3 * (65536 - 4096), func(i int) *FixedCase {
 			per := 65536 - 4096
 			v := uint64(4096 + i%per)
@@ -364,7 +410,7 @@ func enumC17(r *run) bool {
 				raw[k] = byte(0x91 + 7*k)
 			}
 
-			return &FixedCase{Codec: codec, Decode: true, Raw: raw, A: 77, B: 88, Voice: true, HasOffset: i/(5*19) == 1, Offset: -12345}
+			return &FixedCase{Codec: codec, Decode: true, Raw: raw, A: 77, B: 88, Voice: true, HasOffset: i/(5*19) == 1, Offset: -12345, PreloadSame: i%2 == 1}
 		}, false},
 	}
 	for _, d := range doms {
